@@ -51,6 +51,8 @@ type Case struct {
 	// built the earlier operations under it; the application then assigned the case's base path to Runtime.BasePath
 	// (as New would have stored it). "-" stands for no such history.
 	EarlierBase string `json:"earlier_base,omitempty"`
+	// Signer: the operation's auth writer reads the request's path, method and query (as a request signer does)
+	Signer bool `json:"signer,omitempty"`
 }
 
 // Model ------------------------------------------------------------------------------------------------
@@ -417,6 +419,17 @@ func buildOnce(c Case, order []int) (req *http.Request, err error, v *kit.Violat
 				})
 				break
 			}
+		}
+		if c.Signer {
+			// a signing auth writer looks at what it signs before the URL is built: looking changes nothing (r9)
+			inner := op.AuthInfo
+			op.AuthInfo = runtime.ClientAuthInfoWriterFunc(func(r runtime.ClientRequest, reg strfmt.Registry) error {
+				_, _, _ = r.GetPath(), r.GetMethod(), r.GetQueryParams()
+				if inner != nil {
+					return inner.AuthenticateRequest(r, reg)
+				}
+				return nil
+			})
 		}
 		req, err = rt.CreateHttpRequest(op)
 	})
